@@ -10,6 +10,22 @@ func (k *ExtendedKey) VerifWF() bool {
 	return k != nil && (!k.isPrivate || len(k.key) == 32) && (k.isPrivate || len(k.key) == 33) && len(k.chainCode) == 32 && len(k.parentFP) == 4 && len(k.version) == 4
 }
 
+// verifParseOfString is a lemma (build tag verif only, never called): C14 "parsing a serialised key returns an equal
+// key", for private keys, as a consequence of the contracts of String, NewKeyFromString and the assumed base-58 round trip.
+func verifParseOfString(k *ExtendedKey) (*ExtendedKey, error) {
+	return NewKeyFromString(k.String())
+}
+
+//@ func verifParseOfString
+//@   props C14
+//@   requires wf(k) && k.isPrivate && len(k.pubKey) <= 33
+//@   modifies k, gmap("bigval")
+//@   ensures[C14] err == nil || err == ErrUnusableSeed
+//@   ensures[C14] err == nil ==> result.isPrivate && result.depth == k.depth && result.childNum == k.childNum
+//@   ensures[C14] err == nil ==> strOf(result.version[0:4]) == strOf(k.version[0:4]) && strOf(result.parentFP[0:4]) == strOf(k.parentFP[0:4])
+//@   ensures[C14] err == nil ==> strOf(result.chainCode[0:32]) == strOf(k.chainCode[0:32])
+//@   ensures[C14] err == nil ==> strOf(result.key[0:32]) == strOf(k.key[0:32])
+
 // H4 (serialisation helper): result = dst ++ 0^(max(0,size-len(src))) ++ src
 //@ func paddedAppend
 //@   props C14 C19
@@ -35,6 +51,17 @@ func (k *ExtendedKey) VerifWF() bool {
 //@   ensures err == nil && result.isPrivate ==> len(result.key) == 32 && 0 < beval(result.key) && beval(result.key) < curveN()
 //@   ensures err == nil && !result.isPrivate ==> len(result.key) == 33
 //@   ensures err != nil ==> result == nil
+// parsing inverts the serialisation layout: the fields are the slices of the decoded 82 bytes, the last four of which
+// are the double-SHA256 checksum of the first 78 ("rejecting bad checksums, lengths")
+//@   ensures[C14] err == nil ==> len(ghosts("b58dec", key)) == 82
+//@   ensures[C14] len(ghosts("b58dec", key)) == 82 && ghosts("b58dec", key)[78:82] == ghosts("sha256d", ghosts("b58dec", key)[0:78])[0:4] && sbyteAt(ghosts("b58dec", key), 45) == 0 ==> err == nil || err == ErrUnusableSeed
+//@   ensures[C14] err == nil ==> ghosts("b58dec", key)[78:82] == ghosts("sha256d", ghosts("b58dec", key)[0:78])[0:4]
+//@   ensures[C14] err == nil ==> strOf(result.version) == ghosts("b58dec", key)[0:4] && result.depth == sbyteAt(ghosts("b58dec", key), 4) && strOf(result.parentFP) == ghosts("b58dec", key)[5:9]
+//@   ensures[C14] err == nil ==> strOf(result.chainCode) == ghosts("b58dec", key)[13:45]
+//@   ensures[C14] err == nil ==> mathint(result.childNum) == mathint(sbyteAt(ghosts("b58dec", key), 9))*16777216 + mathint(sbyteAt(ghosts("b58dec", key), 10))*65536 + mathint(sbyteAt(ghosts("b58dec", key), 11))*256 + mathint(sbyteAt(ghosts("b58dec", key), 12))
+//@   ensures[C14] err == nil ==> result.isPrivate == (sbyteAt(ghosts("b58dec", key), 45) == 0)
+//@   ensures[C14] err == nil && result.isPrivate ==> strOf(result.key) == ghosts("b58dec", key)[46:78]
+//@   ensures[C14] err == nil && !result.isPrivate ==> strOf(result.key) == ghosts("b58dec", key)[45:78]
 
 // representation invariant of an extended key (BIP-32 field sizes)
 //@ define wf(k) = (k != nil && (k.isPrivate ==> len(k.key) == 32) && (!k.isPrivate ==> len(k.key) == 33) && len(k.chainCode) == 32 && len(k.parentFP) == 4 && len(k.version) == 4)
@@ -90,6 +117,27 @@ func (k *ExtendedKey) VerifWF() bool {
 //@   props C14 C19
 //@   requires k != nil && len(k.version) == 4 && len(k.parentFP) == 4 && len(k.chainCode) == 32 && len(k.key) <= 33 && len(k.pubKey) <= 33
 //@   modifies k
+// the string of a private key decodes (base-58) to the BIP-32 layout: version, depth, parent fingerprint, child number,
+// chain code, 0x00 || key, and the first four bytes of the double SHA-256 of those 78 bytes
+//@   ensures[C14] old(k.isPrivate && len(k.key) == 32) ==> len(ghosts("b58dec", result)) == 82
+//@   ensures[C14] old(k.isPrivate && len(k.key) == 32) ==> ghosts("b58dec", result)[0:4] == strOf(k.version[0:4])
+//@   ensures[C14] old(k.isPrivate && len(k.key) == 32) ==> sbyteAt(ghosts("b58dec", result), 4) == k.depth
+//@   ensures[C14] old(k.isPrivate && len(k.key) == 32) ==> ghosts("b58dec", result)[5:9] == strOf(k.parentFP[0:4])
+//@   ensures[C14] old(k.isPrivate && len(k.key) == 32) ==> mathint(k.childNum) == mathint(sbyteAt(ghosts("b58dec", result), 9))*16777216 + mathint(sbyteAt(ghosts("b58dec", result), 10))*65536 + mathint(sbyteAt(ghosts("b58dec", result), 11))*256 + mathint(sbyteAt(ghosts("b58dec", result), 12))
+//@   ensures[C14] old(k.isPrivate && len(k.key) == 32) ==> ghosts("b58dec", result)[13:45] == strOf(k.chainCode[0:32])
+//@   ensures[C14] old(k.isPrivate && len(k.key) == 32) ==> sbyteAt(ghosts("b58dec", result), 45) == 0 && ghosts("b58dec", result)[46:78] == strOf(k.key[0:32])
+//@   ensures[C14] old(k.isPrivate && len(k.key) == 32) ==> ghosts("b58dec", result)[78:82] == ghosts("sha256d", ghosts("b58dec", result)[0:78])[0:4]
+//@   at "if k.isPrivate {..." assert[C14] len(serializedBytes) == 45 && bytesEq(serializedBytes, 13, k.chainCode, 0, 32)
+//@   at "checkSum := wire.DoubleHashB(serializedBytes)[:4]" assert[C14] len(serializedBytes) >= 45 && bytesEq(serializedBytes, 13, k.chainCode, 0, 32)
+//@   at "serializedBytes = paddedAppend(32, serializedBytes, k.key)" assert[C14] len(serializedBytes) == 46 && serializedBytes[45] == 0 && disjoint(serializedBytes, k.key)
+//@   at "checkSum := wire.DoubleHashB(serializedBytes)[:4]" assert[C14] k.isPrivate && len(k.key) == 32 ==> len(serializedBytes) == 78
+//@   at "checkSum := wire.DoubleHashB(serializedBytes)[:4]" assert[C14] k.isPrivate && len(k.key) == 32 ==> serializedBytes[45] == 0
+//@   at "checkSum := wire.DoubleHashB(serializedBytes)[:4]" assert[C14] k.isPrivate && len(k.key) == 32 ==> bytesEq(serializedBytes, 46, k.key, 0, 32)
+//@   at "return base58.Encode(serializedBytes)" assert[C14] k.isPrivate && len(k.key) == 32 ==> len(serializedBytes) == 82
+//@   at "return base58.Encode(serializedBytes)" assert[C14] bytesEq(serializedBytes, 0, k.version, 0, 4) && serializedBytes[4] == k.depth && bytesEq(serializedBytes, 5, k.parentFP, 0, 4)
+//@   at "return base58.Encode(serializedBytes)" assert[C14] be32(serializedBytes, 9) == k.childNum
+//@   at "return base58.Encode(serializedBytes)" assert[C14] bytesEq(serializedBytes, 13, k.chainCode, 0, 32)
+//@   at "return base58.Encode(serializedBytes)" assert[C14] k.isPrivate && len(k.key) == 32 ==> serializedBytes[45] == 0 && bytesEq(serializedBytes, 46, k.key, 0, 32)
 
 // wiping a key: only the key object and its own byte slices change
 //@ func (*ExtendedKey).Zero
